@@ -674,3 +674,29 @@ def run(ck):
                   "the %s of %s does not carry %s: in the moved-to object it starts from its default" % (kind, short, missing))
     ck.require(nmv >= 3, "hand-written move operations of the response classes found: %d" % nmv)
 
+    # ---------------- R4 clause: end-of-file is told apart on the int_type value ----------------
+    # (a byte 0xFF converted to `char` compares equal to EOF where char is signed: the buffer would refuse that one byte, or take it for
+    # the end of the data)
+    iseof = lambda t_: bool(re.search(r"(traits_type::eof\(\)|char_traits<char>::eof\(\)|::Eof\b|\bEOF\b)", t_ or ""))
+    ischar = lambda ty_: re.sub(r"\bconst\b|\s+|&", "", ty_ or "") in ("char", "std::char_traits<char>::char_type", "char_type", "CharT", "signedchar")
+    nef, badef = 0, []
+    for f in prog.library_funcs():
+        if not f.blocks or not ("/src/" in f.file or "/include/pistache/" in f.file) or f.file.startswith(facts.VERIF):
+            continue
+        for e in f.events(("call", "cmp")):
+            if e["k"] == "call" and (e.get("callee") or "").endswith("eq_int_type"):
+                nef += 1
+                if any(ischar(a_.get("ty")) for a_ in e.get("args", [])):
+                    badef.append((f, e))
+            elif e["k"] == "cmp":
+                l_, r_ = (e.get("lhs") or {}), (e.get("rhs") or {})
+                for a_, b_ in ((l_, r_), (r_, l_)):
+                    if iseof(b_.get("t")):
+                        nef += 1
+                        if ischar(a_.get("ty")):
+                            badef.append((f, e))
+    ck.ob("C05-R4", "eof-compared-as-int_type", not badef, (badef[0][1].loc if badef else ""), (badef[0][0] if badef else ""),
+          "%d end-of-file tests in the library, none on a value already narrowed to char" % nef if not badef else
+          "%s compares a `char` with end-of-file (line %s): the byte 0xFF is equal to EOF once it is a signed char, so the buffer refuses it or "
+          "stops there" % (badef[0][0].name, badef[0][1].get("l")))
+
